@@ -30,43 +30,49 @@ LEVEL = "model_checking"
 
 JAVA_OPTS = {"JAVA_TOOL_OPTIONS": "-XX:CICompilerCount=2"}
 
-# (name, base cfg, constants, expected outcome, workers)
+# (name, base cfg, constants, expected outcome, workers, stage): stage 2 runs alongside the trace
+# validations; at most 4 TLC threads at any time
 def _design_jobs(q):
     small = {"MaxBoxes": 2}
     main = {"MaxBoxes": 3}
-    jobs = [("contract", "BihMC", main, "ok", 2 if q else 4)]
     side = small if q else main
-    jobs += [
-        ("ascoded", "BihMC_ascoded", side, "ok", 1),
-        ("f1", "BihMC_f1", side, "FindOK", 1),
-        ("mut_centre", "BihMC_mut_centre", side, "StructOK", 1),
-        ("mut_noright", "BihMC_mut_noright", side, "FindOKModuloOnPlane", 1),
-        ("mut_leftonly", "BihMC_mut_leftonly", side, "FindOKModuloOnPlane", 1),
+    jobs = [
+        ("contract", "BihMC", main, "ok", 2 if q else 1, 2),
+        ("ascoded", "BihMC_ascoded", side, "ok", 1, 1 if q else 2),
+        ("f1", "BihMC_f1", side, "FindOK", 1, 1),
+        ("mut_centre", "BihMC_mut_centre", side, "StructOK", 1, 1),
+        ("mut_noright", "BihMC_mut_noright", side, "FindOKModuloOnPlane", 1, 1),
+        ("mut_leftonly", "BihMC_mut_leftonly", side, "FindOKModuloOnPlane", 1, 1),
     ]
     if not q:
+        two = {"Coords": "{0, 2}", "Dims": 2, "MaxBoxes": 3, "WithInf": "FALSE", "WithNull": "FALSE"}
         jobs += [
-            ("contract_2d", "BihMC", {"Coords": "{0, 2}", "Dims": 2, "MaxBoxes": 3}, "ok", 4),
-            ("ascoded_2d", "BihMC_ascoded", {"Coords": "{0, 2}", "Dims": 2, "MaxBoxes": 3}, "ok", 4),
-            ("contract_wide", "BihMC", {"Coords": "{0, 2, 4, 6}", "MaxBoxes": 3}, "ok", 4),
+            ("contract_2d", "BihMC", two, "ok", 1, 2),
+            ("ascoded_2d", "BihMC_ascoded", two, "ok", 1, 2),
+            ("contract_wide", "BihMC", {"Coords": "{0, 2, 4, 6}", "MaxBoxes": 3}, "ok", 1, 2),
         ]
     return jobs
 
 
 # (name, constants of BihMC_gen, harness shards, unit mode too?)
 def _gen_jobs(q):
+    semi = {"Coords": "{0, 2, 4}", "Dims": 1, "MaxBoxes": 3, "WithInf": "TRUE", "WithNull": "TRUE", "WithSemi": "TRUE"}
     if q:
         return [
-            ("g1semi", {"Coords": "{0, 2, 4}", "Dims": 1, "MaxBoxes": 3, "WithNull": "TRUE", "WithSemi": "TRUE"}, 1, True),
+            ("g1semi", semi, 1, True),
             ("g1four", {"Coords": "{0, 2, 4}", "Dims": 1, "MaxBoxes": 4, "WithInf": "FALSE", "WithNull": "FALSE",
                         "WithSemi": "FALSE"}, 2, False),
             ("g2", {"Coords": "{0, 2}", "Dims": 2, "MaxBoxes": 3, "WithInf": "FALSE", "WithNull": "FALSE",
                     "WithSemi": "FALSE"}, 2, True),
         ]
     return [
-        ("g1semi", {"Coords": "{0, 2, 4}", "Dims": 1, "MaxBoxes": 3, "WithNull": "TRUE", "WithSemi": "TRUE"}, 1, True),
-        ("g1four", {"Coords": "{0, 2, 4, 6}", "Dims": 1, "MaxBoxes": 4, "WithNull": "TRUE", "WithSemi": "FALSE"}, 12, False),
-        ("g2", {"Coords": "{0, 2}", "Dims": 2, "MaxBoxes": 4, "WithNull": "FALSE", "WithSemi": "FALSE"}, 12, True),
-        ("g2wide", {"Coords": "{0, 2, 4}", "Dims": 2, "MaxBoxes": 2, "WithNull": "FALSE", "WithSemi": "TRUE"}, 4, True),
+        ("g1semi", semi, 1, True),
+        ("g1four", {"Coords": "{0, 2, 4, 6}", "Dims": 1, "MaxBoxes": 4, "WithInf": "TRUE", "WithNull": "FALSE",
+                    "WithSemi": "FALSE"}, 8, False),
+        ("g2", {"Coords": "{0, 2}", "Dims": 2, "MaxBoxes": 4, "WithInf": "FALSE", "WithNull": "FALSE",
+                "WithSemi": "FALSE"}, 8, True),
+        ("g2wide", {"Coords": "{0, 2, 4}", "Dims": 2, "MaxBoxes": 2, "WithInf": "TRUE", "WithNull": "FALSE",
+                    "WithSemi": "TRUE"}, 4, True),
     ]
 
 
@@ -172,11 +178,11 @@ def run(ctx):
         e = dict(JAVA_OPTS)
         e["OUT"] = ctx.path(name + ".configs.ndjson")
         tj.append(dict(module="BihMC", cfg=cfg, workers=1, env=e, timeout=3000, heap="6g"))
-    late = []   # big design runs go with the trace validations
-    for name, base, consts, expect, workers in design:
+    late = []   # stage-2 design runs go with the trace validations
+    for name, base, consts, expect, workers, stage in design:
         cfg = _cfg(ctx, base, "mc_" + name, consts)
         job = dict(module="BihMC", cfg=cfg, workers=workers, env=JAVA_OPTS, timeout=6000, heap="6g", deadlock=True)
-        if workers > 1:
+        if stage == 2:
             late.append((name, expect, job))
         else:
             tj.append(job)
@@ -184,8 +190,8 @@ def run(ctx):
     gen_res = res1[:len(gens)]
     design_res = {}
     i = len(gens)
-    for name, base, consts, expect, workers in design:
-        if workers == 1:
+    for name, base, consts, expect, workers, stage in design:
+        if stage == 1:
             design_res[name] = res1[i]
             i += 1
 
@@ -211,14 +217,20 @@ def run(ctx):
             out = ctx.path("%s.%d.ndjson" % (name, si))
             args = ["replay", sp, out, 16]
             traces.append(("%s.%d" % (name, si), "replay", _run_harness(ctx, args, out), args, len(part)))
+            # the harness must have been given exactly the configurations TLC wrote (glue check)
+            want = [json.loads(c)["boxes"] for c in part]
+            with open(out) as fh:
+                got = [json.loads(l)["in"] for l in fh if '"e":"Build"' in l]
+            if got != want and '"e":"Abort"' not in open(out).read()[-600:]:
+                raise vlib.Broken("replay %s.%d: the harness did not echo the generated configurations" % (name, si))
         if unit:
             out = ctx.path("%s.unit.ndjson" % name)
             args = ["unit", path, out]
             traces.append((name + ".unit", "unit", _run_harness(ctx, args, out), args, len(confs)))
-    nrand = 2 if q else 8
+    nrand = 2 if q else 6
     for i in range(nrand):
         out = ctx.path("rand%d.ndjson" % i)
-        args = ["rand", (ctx.seed * 31 + i) % 2000000000, 100 if q else 600, 6 + 2 * (i % 4), 3 + (i % 3), out]
+        args = ["rand", (ctx.seed * 31 + i) % 2000000000, 100 if q else 400, 6 + 2 * (i % 4), 3 + (i % 3), out]
         traces.append(("rand%d" % i, "rand", _run_harness(ctx, args, out), args, args[2]))
 
     # ------------------------------------------------------------------ batch 2: trace validation + big design runs
@@ -248,7 +260,7 @@ def run(ctx):
         e = dict(JAVA_OPTS)
         e["TRACE"] = b["path"]
         tj.append(dict(module="BihTrace", cfg="BihTrace", workers=1, env=e, timeout=6000, heap="5g"))
-    res2 = vlib.tlc_parallel(tj, maxpar=4)
+    res2 = vlib.tlc_parallel(tj, maxpar=3 if q else 4)   # quick: contract has 2 workers
     for (name, expect, job), r in zip(late, res2[:len(late)]):
         design_res[name] = r
     trace_res = res2[len(late):]
@@ -259,7 +271,7 @@ def run(ctx):
     # ------------------------------------------------------------------ design outcome
     states = transitions = 0
     design_cov = {}
-    for name, base, consts, expect, workers in design:
+    for name, base, consts, expect, workers, stage in design:
         r = design_res[name]
         design_cov[name] = {"cfg": base, "constants": consts, "distinct": r.distinct, "generated": r.generated,
                             "expected": expect, "exit": r.code}
